@@ -91,7 +91,9 @@ func c20Literal(t *rapid.T) string {
 	sb.WriteString(q)
 	for i := 0; i < n; i++ {
 		// "\r" is Enter pressed inside the literal: the console turns it into a space
-		sb.WriteString(rapid.SampledFrom([]string{";", ";", " ", "a", "b;c", other, other + ";", "  ", "x y", "é", "日本", ";;", "SELECT", ",", "(", "--", "/*", "\r", ";\r", "\r;"}).Draw(t, "part"))
+		sb.WriteString(rapid.SampledFrom([]string{";", ";", " ", "a", "b;c", other, other + ";", "  ", "x y", "é", "日本", ";;", "SELECT", ",", "(", "--", "/*", "\r", ";\r", "\r;",
+			// characters that are not "graphic": joiners, soft hyphen, byte-order mark, private use, a 4-byte emoji sequence
+			"\u200d", "a\u200cb", "co\u00adop", "\ufeff", "\ue000", "👩\u200d👩", "\u00a0", "\u2028", "\U000e0041"}).Draw(t, "part"))
 	}
 	sb.WriteString(q)
 	return sb.String()
